@@ -211,14 +211,19 @@ def final_checks(run, clients, healed_for, horizon=HORIZON):
         # ---- C07 callback counts
         if rec["with_cb"] and rec["retry"] in (0, -1):
             n = len(rec["cb"])
-            fragmented = rec["len"] > Packet.MAX_PAYLOAD_SIZE
+            fragmented = rec.get("fragmented", rec["len"] > Packet.MAX_PAYLOAD_SIZE)
             if n > 1:
                 rep("C07", "callback-fired-%s" % ("repeatedly-guaranteed" if guaranteed else "repeatedly"),
                     "callback of a %s send (%d bytes%s) fired %d times: %s" % (
                         "guaranteed" if guaranteed else "retry-none", rec["len"], ", fragmented" if fragmented else "", n,
                         [(round(t - rec["t"], 3), v) for t, v, _ in rec["cb"][:8]]), {"len": rec["len"], "retry": rec["retry"]})
             elif n == 0 and alive and healed_for is None:
-                c.inc("callbacks_unresolved_not_quiescent")
+                if rec.get("nmsgs") and classify_stuck(run, rec) == "never-leaves-send-queue":
+                    # not a question of acks or timing: a part of the message sits in the send queue and never reached the wire
+                    rep("C07", "callback-never-fired-message-never-sent", "callback of a %s send (%d bytes) never fired %.0fs after the network healed: %s" % (
+                        "guaranteed" if guaranteed else "retry-none", rec["len"], horizon, where_stuck(run, rec)), {"len": rec["len"], "retry": rec["retry"]})
+                else:
+                    c.inc("callbacks_unresolved_not_quiescent")
             elif n == 0 and alive:
                 rep("C07", "callback-never-fired%s" % ("-fragmented" if fragmented else ""),
                     "callback of a %s send (%d bytes%s) never fired although the connection stayed open and the sender is quiescent" % (
@@ -233,8 +238,8 @@ def final_checks(run, clients, healed_for, horizon=HORIZON):
             if value is True:
                 c.inc("callbacks_true")
                 if not peer_has:
-                    mech = "success-before-acceptance%s" % ("-fragmented" if rec["len"] > Packet.MAX_PAYLOAD_SIZE else "")
-                    if rec["len"] > Packet.MAX_PAYLOAD_SIZE and not delivered and expired_signature(run, rec):
+                    mech = "success-before-acceptance%s" % ("-fragmented" if rec.get("fragmented", rec["len"] > Packet.MAX_PAYLOAD_SIZE) else "")
+                    if rec.get("fragmented", rec["len"] > Packet.MAX_PAYLOAD_SIZE) and not delivered and expired_signature(run, rec):
                         mech = "reassembly-context-expired-while-sender-retries"
                     rep("C07", mech,
                         "callback(True) for message %r (%d bytes) at t+%.3f but the peer application had not received it" % (
@@ -284,7 +289,7 @@ def classify_stuck(run, rec):
     on_wire = [s for s in seqs if (id(conn), s) in run.wiremon.msg_on_wire]
     if queued and len(on_wire) < n:
         return "never-leaves-send-queue"
-    if rec["len"] > Packet.MAX_PAYLOAD_SIZE:
+    if rec.get("fragmented", rec["len"] > Packet.MAX_PAYLOAD_SIZE):
         if expired_signature(run, rec):
             return "reassembly-context-expired-while-sender-retries"
         return "fragmented-guaranteed-undelivered"
